@@ -149,6 +149,17 @@ def syntax_faults(r, text):
     if ms:
         m = r.choice(ms)
         yield 'property-shaped unknown setting last', text[:m.start()] + ", colour: 'red'" + text[m.start():]
+    # a backslash at the end of a structural line (outside any string) continues nothing
+    cand = [i for i, l in enumerate(lines) if l.rstrip().endswith(('{', '}', ']')) and "'" not in l and '"' not in l and '`' not in l
+            and '//' not in l and '\n'.join(lines[:i]).count("'''") % 2 == 0 and '/*' not in '\n'.join(lines[:i + 1])]
+    if cand:
+        i = r.choice(cand)
+        yield 'stray backslash at the end of a line', '\n'.join(lines[:i] + [lines[i].rstrip() + ' \\'] + lines[i + 1:])
+    # digits that are not ASCII digits are no number
+    m = re.search(r'(?i)(default:\s*)(\d+)(?=\s*[,\]])', text)
+    if m:
+        uni = ''.join(chr(0xFF10 + int(ch_)) for ch_ in m.group(2))
+        yield 'non-ASCII digits as a number', text[:m.start(2)] + uni + text[m.end(2):]
     # a settings list is  [ item (, item)* ] : no comma may lead, trail or double
     ms = list(re.finditer(r'(?<!\[)\]', text))
     if ms:
@@ -239,6 +250,34 @@ def rule_violations(r, A):
             B['refs'].append({'kind': '>', 't1': (t['schema'], t['name']), 'cols1': [safe_col(t)], 't2': (wrong, tgt['name']),
                               'cols2': [safe_col(tgt)], 'form': r.choice(['short', 'long', 'inline']), 'name': None, 'on_update': None, 'on_delete': None, 'comment': None})
             yield 'reference to a table name that exists only in another schema', OWN + 'TableNotFoundError', B
+        # a name that differs from a declared one only by its Unicode normal form (or by letter case) is another name
+        import unicodedata
+        def other_form(n):
+            for f_ in ('NFD', 'NFC'):
+                m_ = unicodedata.normalize(f_, n)
+                if m_ != n:
+                    return m_
+            return n.swapcase() if n.swapcase() != n else None
+        cands = [(x, other_form(x['name'])) for x in A['tables'] if safe_col(x)]
+        cands = [(x, o) for x, o in cands if o and (x['schema'] + '.' + o) not in keys and o not in keys]
+        if cands:
+            B = copy.deepcopy(A)
+            tgt, o = r.choice(cands)
+            t = r.choice([x for x in B['tables'] if safe_col(x)])
+            B['refs'].append({'kind': '>', 't1': (t['schema'], t['name']), 'cols1': [safe_col(t)], 't2': (tgt['schema'], o),
+                              'cols2': [safe_col(tgt)], 'form': r.choice(['short', 'long', 'inline']), 'name': None, 'on_update': None, 'on_delete': None, 'comment': None})
+            yield 'reference to a table name that is declared only in another Unicode form / letter case', OWN + 'TableNotFoundError', B
+            B = copy.deepcopy(A)
+            B['groups'].append({'name': 'formgroup', 'items': [(tgt['schema'], o)], 'note': None, 'color': None, 'comment': None})
+            yield 'group names a table declared only in another Unicode form / letter case', OWN + 'TableNotFoundError', B
+        ccands = [(x, c_['name'], other_form(c_['name'])) for x in A['tables'] for c_ in x['columns'] if ',' not in c_['name'] and c_['name'] == c_['name'].strip('() ')]
+        ccands = [(x, c_, o) for x, c_, o in ccands if o and o not in [y['name'] for y in x['columns']] and ',' not in o]
+        if ccands:
+            B = copy.deepcopy(A)
+            tgt, cn, o = r.choice(ccands)
+            B['refs'].append({'kind': '<', 't1': (tgt['schema'], tgt['name']), 'cols1': [cn], 't2': (tgt['schema'], tgt['name']),
+                              'cols2': [o], 'form': r.choice(['short', 'long']), 'name': None, 'on_update': None, 'on_delete': None, 'comment': None})
+            yield 'reference to a column declared only in another Unicode form / letter case', OWN + 'ColumnNotFoundError', B
         B = copy.deepcopy(A)
         t = r.choice([x for x in B['tables'] if safe_col(x)])
         B['refs'].append({'kind': '<', 't1': (t['schema'], t['name']), 'cols1': [safe_col(t)], 't2': (t['schema'], t['name']),
@@ -524,6 +563,14 @@ def run(v, tier, st, pr, pid):
             for bad in [a_ + ',', a_ + ', ', ',' + a_, a_ + ',,' + b_, a_ + ', ,' + b_, a_ + ',\n' , ',']:
                 cases.append(('comma that separates nothing in a settings list', lst % bad))
                 add_job(lst % bad, False, 'comma', renders=False)
+        for bad in ['Table a {\n  id int [default: \uff11\uff12]\n}\n', 'Table a {\n  id int [pk, default: \u0661\u0662]\n}\n', 'Table a {\n  id int [default: 1.\uff15]\n}\n',
+                    'Table a {\n  id int [default: \u0967]\n}\n']:
+            cases.append(('non-ASCII digits as a number', bad))
+            add_job(bad, False, 'digits', renders=False)
+        for bad in ['Table a { \\\n  id int\n}\n', 'Table a {\n  id int\n}\n\\\nTable b {\n  id int\n}\n', 'Table a {\n  id int [pk, \\\n unique]\n}\n',
+                    'Table a {\n  id int \\\n}\n', 'Enum e {\r\n  a \\\r\n  b\r\n}\r\n', 'Table a {\n  id int\n}\n\\']:
+            cases.append(('stray backslash at the end of a line', bad))
+            add_job(bad, False, 'backslash', renders=False)
         outs = pool_map(parse_impl_job, [(t, False) for _, t in cases])
         byk = {}
         for (kind, text), o in zip(cases, outs):
@@ -592,6 +639,11 @@ def run(v, tier, st, pr, pid):
                      "Table t {\n id int [note: '  ']\n}", 'Table t {\n id "a.b.c"\n}', "Note n {\n'''\n\n'''\n}",
                      'Table t {\n id int\n}\nRef "{": t.id > t.id', 'Table t {\n id int\n}\nRef: t.id <> t.id // {x}', '', '// only a comment', '\ufeff', '\ufeffTable t {\n id int\n}',
                      'Table t {\n id int [default: ' + '9' * 4301 + ']\n}', 'Table t {\n id int [default: ' + '9' * 4300 + ']\n}',
+                     # numbers with an exponent, signed numbers (no number literal of the grammar: parse errors, nothing else)
+                     'Table t {\n id int [default: 1e5]\n}', 'Table t {\n id int [default: 2E-3]\n}', 'Table t {\n id int [default: 7e+2]\n}',
+                     'Table t {\n id int [default: -1e3]\n}', 'Table t {\n id int [default: -1]\n}', 'Table t {\n id int [default: +1.5]\n}',
+                     # texts that happen to name something in the file system are texts
+                     '.', '..', '/', 'pydbml', 'test', '/etc/hostname', 'setup.py', 'README.md', '/repo/pydbml', '/repo', '/repo/README.md', '/repo/coverage.svg',
                      # documents without any table
                      'Ref: a.id > b.id', 'Ref r {\n a.id > b.id\n}', 'TableGroup g {\n a\n}', 'TableGroup g {\n}', 'Enum e {\n a\n}\nRef: a.id > b.id',
                      "Project p {\n}\nNote n {\n 'x'\n}\nTableGroup g {\n s.a\n}", 'Enum e {\n a\n}', "Note n {\n ''\n}"]:
